@@ -44,6 +44,9 @@ type Violation struct {
 	Signature string      `json:"signature"` // <prop>/<rule>/<where>/<trait>
 	What      string      `json:"what"`
 	Witness   interface{} `json:"witness,omitempty"`
+	// filled in when the replay file is written: the seeded run that produced the violation
+	RunSeed int64  `json:"run_seed,omitempty"`
+	RunTier string `json:"run_tier,omitempty"`
 }
 
 type Known struct {
@@ -233,6 +236,7 @@ func (r *Run) Finish() int {
 		unlisted++
 		unlistedSigs = append(unlistedSigs, v.Signature)
 		path := filepath.Join(dir, "replays", fmt.Sprintf("%s-%d-%d.json", v.Property, r.SeedV, i))
+		v.RunSeed, v.RunTier = r.SeedV, r.Tier
 		bz, _ := json.MarshalIndent(v, "", " ")
 		_ = ioutil.WriteFile(path, bz, 0644)
 		fmt.Printf("VIOLATION property=%s replay=%s\n", v.Property, path)
